@@ -145,6 +145,10 @@ def run(ctx, b, broken):
             "knr-parameters": "int f(" + ", ".join(f"a{i}" for i in range(k)) + ") " + " ".join(f"int a{i};" for i in range(k)) + " { return 0; }",
             "typedef-names-in-scope": " ".join(f"typedef int T{i};" for i in range(k)) + " " + " ".join(f"T{i} v{i};" for i in range(k)),
             "case-labels-one-statement": "void f(int x){ switch (x) { " + " ".join(f"case {i}:" for i in range(k)) + " x = 1; } }",
+            # many names visible in an enclosing scope, then many scopes opened and closed (opening a scope must not cost more when more is visible)
+            "names-then-blocks": "int " + ", ".join(f"n{i}" for i in range(k)) + "; void f(void){ " + "{ } " * k + "}",
+            "names-then-functions": "int " + ", ".join(f"n{i}" for i in range(k)) + "; " + " ".join(f"void g{i}(void){{ }}" for i in range(k // 4)),
+            "names-then-initializer-braces": "int " + ", ".join(f"n{i}" for i in range(k)) + "; int a[][1] = { " + ", ".join("{0}" for _ in range(k)) + " };",
         }
     import subprocess, sys as _sys
 
@@ -157,7 +161,8 @@ def run(ctx, b, broken):
             "big-block": 4, "string-concat": 15, "wstring-concat": 15, "many-functions": 2, "array-dims": 2, "typedef-uses": 4, "call-args": 5, "else-if-chain": 1,
             "struct-body-many-declarators": 1, "enum-body-many-declarators": 1, "typedef-struct-many-names": 1, "prototype-many-parameters-many-declarators": 1,
             "member-chain": 1, "arrow-chain": 1, "subscript-chain": 1, "call-chain": 1, "postincrement-chain": 1, "pointer-stars": 1, "nested-structs": 1, "nested-blocks": 1,
-            "nested-function-pointer-parameters": 1, "linemarker-run-between-two-tokens": 4, "pragma-run": 4, "knr-parameters": 2, "typedef-names-in-scope": 2, "case-labels-one-statement": 1}
+            "nested-function-pointer-parameters": 1, "linemarker-run-between-two-tokens": 4, "pragma-run": 4, "knr-parameters": 2, "typedef-names-in-scope": 2, "case-labels-one-statement": 1,
+            "names-then-blocks": 20, "names-then-functions": 20, "names-then-initializer-braces": 20}
     names = list(timed(4))
     small = {n_: timed(K * MULT[n_])[n_] for n_ in names}
     large = {n_: timed(2 * K * MULT[n_])[n_] for n_ in names}
@@ -266,11 +271,14 @@ def run(ctx, b, broken):
             "hexfloat-run": "0x" + "f" * n + ".p", "exponent-run": "1e" + "1" * n + "x", "suffix-run": "1" + "uUlL" * (n // 4),
             "wide-prefix-run": "L" * n + "'", "dots": "." * n, "string-concat-run": '"a" ' * (n // 4), "line-directive-run": "#line " + "1" * n + ' "f"\n',
             "pragma-run": "#pragma " + "x " * (n // 2) + "\n",
+            # runs of INVALID escapes (the error rules of string / character literals), terminated and not
+            "bad-escape-run-unterminated": '"' + "\\%" * (n // 2), "bad-escape-run-terminated": '"' + "\\%" * (n // 2) + '"',
+            "bad-escape-run-char": "'" + "\\%" * (n // 2) + "'", "bad-escape-run-mixed": '"' + "a\\%\\n" * (n // 5),
         }
     # a few hundred characters must never take seconds; 20k characters get a wide linear margin.  CPU time is measured in a
     # fresh subprocess and judged RELATIVE to a linear reference workload of the same size measured at the same moment (an
     # identifier run), so that a loaded machine does not turn into an alarm; an over-limit measurement is repeated.
-    for n, floor in ((400, 1.0), (20000, 3.0)):
+    for n, floor in ((400, 1.0), (20000, 3.0), (60000, 6.0)):
         fams = lits_of(n)
         base = min(lex_seconds(fams["ident-run"])[1] for _ in range(2)) + 0.01
         ctx.count(f"lexer-baseline-{n}-ms", int(base * 1000))
